@@ -344,6 +344,9 @@ func (its *PushPullHandler) processSubscribeOrCreate(code pushPullCase) errors.O
 	if its.datatypeDoc == nil { // a plain push-pull naming a datatype the server does not have
 		return errors.PushPullNoDatatypeToSubscribe.New(its.ctx.L(), its.Key)
 	}
+	if its.datatypeDoc.CollectionNum != its.collectionDoc.Num { // found by DUID, but in another collection
+		return errors.PushPullNoDatatypeToSubscribe.New(its.ctx.L(), its.Key)
+	}
 	return its.initClientInfoWithDatatypeDoc()
 }
 
